@@ -57,8 +57,9 @@ func nilError() value { return iface{} }
 
 // dirReg: a directory of the scanner stub: documents in file order; badAt[i]=k places an unreadable file before document k
 type dirReg struct {
-	infos []value
-	badAt []int
+	infos  []value
+	badAt  []int
+	nested map[int]bool // documents placed in a sub-directory (seen only by a recursive scan, after the top-level files)
 }
 
 func strSlice(xs []string) value {
@@ -413,6 +414,10 @@ func registerIntrinsics(e *Engine) {
 		if !ok {
 			panic(unsupported("scanner stub: symbolic stopOnErr"))
 		}
+		recursive, ok := args[1].(bool)
+		if !ok {
+			panic(unsupported("scanner stub: symbolic recursive flag"))
+		}
 		infos, errs := []value{}, []value{}
 		for i := 0; i <= len(reg.infos); i++ {
 			for _, b := range reg.badAt {
@@ -424,8 +429,15 @@ func registerIntrinsics(e *Engine) {
 					errs = append(errs, e)
 				}
 			}
-			if i < len(reg.infos) {
+			if i < len(reg.infos) && !reg.nested[i] {
 				infos = append(infos, reg.infos[i])
+			}
+		}
+		if recursive { // the sub-directory sorts after the numbered files
+			for i := range reg.infos {
+				if reg.nested[i] {
+					infos = append(infos, reg.infos[i])
+				}
 			}
 		}
 		return tuple{infos, errs}
